@@ -173,6 +173,9 @@ def _run(ctx, wd):
     rng = ctx.rng
     if ctx.replay:
         cases = [json.load(open(ctx.replay))["case"]]
+        if cases[0].get("kind"):                 # a round-10 in-process case
+            deep_case(ctx, wd, cases[0])
+            return
     else:
         cases = [c for _, c in ctx.corpus()]
         n = (80 if ctx.quick else 1008) * ctx.scale
@@ -228,6 +231,7 @@ def _run(ctx, wd):
     if not ctx.replay:
         list_level(ctx, cases, wd)
         detect_level(ctx, wd)
+        deep_level(ctx, wd)
 
 
 def iterator_lengths(rp, fmt):
@@ -326,6 +330,11 @@ DETECT = [  # (magic class, content factory, file names)
     ("vcf", lambda: b"##fileformat=VCFv4.2\n#CHROM\tPOS\n", ["r.vcf", "r.fastq"]),
     ("gzvcf", lambda: gzip.compress(b"##fileformat=VCFv4.2\n#CHROM\tPOS\n"), ["r.vcf.gz", "r.fastq.gz"]),
     ("bam", None, ["r.bam", "r.fastq", "r.fastq.gz", "r"]),
+    # round 10: a gzip magic followed by garbage (gzip raises inside detect_file_format), a truncated gzip member,
+    # a BGZF-compressed FASTQ, a gzip stream (not BGZF) starting with BAM\1 (magic only)
+    ("raise", lambda: b"\x1f\x8b" + b"\x00garbage-not-a-gzip-stream", ["bad.fastq.gz", "bad.bam"]),
+    ("raise", lambda: gzip.compress(b"@r\nACGT\n+\nIIII\n")[:12], ["trunc.fastq.gz"]),
+    ("other", "bgzf-fastq", ["r.fastq.gz", "r.bam"]),
 ]
 
 
@@ -335,12 +344,16 @@ def detect_level(ctx, wd):
     import whatshap.cli.split as S
     d = os.path.join(wd, "detect"); os.makedirs(d, exist_ok=True)
     reqs, reals, what = [], [], []
+    byte_reqs, byte_reals = [], []
     for magic, content, names in DETECT:
         for nm in names:
             path = os.path.join(d, nm)
             if content is None:
                 with pysam.AlignmentFile(path, "wb", header={"HD": {"VN": "1.6"}, "SQ": [{"SN": "chr1", "LN": 100}]}):
                     pass
+            elif content == "bgzf-fastq":
+                with pysam.BGZFile(path, "wb") as f:
+                    f.write(b"@r\nACGT\n+\nIIII\n")
             else:
                 open(path, "wb").write(content())
             try:
@@ -349,9 +362,35 @@ def detect_level(ctx, wd):
                     real = {"_bam_iterator": "BAM", "_fastq_string_iterator": "FASTQ"}[it.__name__]
             except ValueError:
                 real = "ValueError"
+            except (OSError, EOFError):
+                real = "raise"
+            # round 10: the decision from BYTES — the harness only hands over what the code reads (first 16 bytes of the
+            # file, first 16 bytes of the gunzipped stream); the classification is the model's (`magicOfBytes`)
+            head = open(path, "rb").read(16)
+            try:
+                inner = list(gzip.GzipFile(path, "rb").read(16))
+            except (OSError, EOFError):
+                inner = None
+            try:
+                from whatshap.utils import detect_file_format
+                real_magic = {None: "other", "BAM": "bam", "CRAM": "cram", "VCF": "vcf"}[detect_file_format(path)]
+            except (OSError, EOFError):
+                real_magic = "raise"
             os.remove(path)
+            byte_reqs.append({"op": "c14.magic", "head": list(head), "inner": inner, "path": path})
+            byte_reals.append((real_magic, real, nm))
+            if magic == "raise":
+                if real != "raise":
+                    ctx.disagree("c14.detect", {"magic": magic, "name": nm}, real, "raise")
+                continue
             reals.append(real); what.append((magic, nm))
             reqs.append({"op": "c14.detect", "magic": magic, "path": path})
+    for (real_magic, real, nm), model in zip(byte_reals, ctx.model.ask_many(byte_reqs)):
+        got = {"magic": "raise", "fmt": "raise"} if model.get("raise") else model
+        ctx.dist("detect_bytes", f"{got.get('magic')}->{got.get('fmt')}")
+        intended = got.get("magic") == "other" and nm.endswith(("fq", "fq.gz", "fastq.gzip", "fq.gzip")) and real == "FASTQ"
+        if got.get("magic", "").replace("gzvcf", "vcf") != real_magic or (got.get("fmt") != real and not intended):
+            ctx.disagree("c14.magic", {"name": nm}, {"magic": real_magic, "fmt": real}, model)
     for (magic, nm), real, model in zip(what, reals, ctx.model.ask_many(reqs)):
         ctx.dist("detect", f"{magic}:{nm.split('.', 1)[-1]}->{real}")
         intended = magic == "other" and nm.endswith(("fq", "fq.gz", "fastq.gzip", "fq.gzip"))
@@ -531,6 +570,21 @@ def judge(ctx, case, res, model):
         mines = [[sorted(prescribed(case, tab, listed, nm)) for nm in names] for tab in tabs]
         if run["byList"] not in mines:
             ctx.disagree("c14.prescribedByList", case, mines[0], run["byList"])
+    # round 10: the option table read off the lines for EVERY list (last tagged line of a name wins; with
+    # --only-largest-block a name counts as selected when any of its tagged lines is in a selected block), proved equal
+    # to the code's table (`table_realises_list_general`): against the real outputs and the harness' own reading
+    if run.get("byListGen") is not None:
+        ctx.dist("byListGen", "dup-list" if dup_list else "unique")
+        gen = run["byListGen"]
+        exp = {k: [inp[i][0] for i in range(n) if k in gen[i]] for k in req_sinks}
+        if exp != actual and is_fix:
+            ctx.disagree("c14.byListGen.outputs", case, {k: len(v) for k, v in actual.items()}, {k: len(v) for k, v in exp.items()})
+        mines = [[sorted(prescribed(case, tab, listed, nm)) for nm in names] for tab in admissible_tables(case)]
+        if gen not in mines:
+            ctx.disagree("c14.prescribedByListGen", case, mines[0], gen)
+        if dup_list and case["largest"]:
+            ctx.dist("dup_names_across_blocks", len({(r[0], r[2], r[3]) for r in rows_data if len(r) > 3 and r[1] != "none"})
+                     > len({r[0] for r in rows_data if len(r) > 3 and r[1] != "none"}))
     if model.get("prescribed") is not None and not dup_list and not case["largest"]:
         # the Lean option table agrees with the oracle's reading of the property text
         tab = next(admissible_tables(case))
@@ -541,3 +595,294 @@ def judge(ctx, case, res, model):
     if len(ctx.samples) < 3 and 2 <= n <= 5 and n_written:
         ctx.sample({"options": opts, "requested": case["requested"], "list": rows_data, "reads": names,
                     "written_names": {k: [t.split("\n")[0].split("\t")[0] for t in actual[k]] for k in req_sinks}, "histogram": rows})
+
+
+# ------------------------------------------------------------------------------------------------------------------
+# round 10: the input iterators as coded, ties of largest blocks / duplicate names on many lists, odd paths
+
+BAM_SHAPES = ["seq", "seq+cigar", "noseq+cigar", "noseq+hardclip", "noseq+del-only", "neither", "neither-mapped-flag"]
+
+
+def gen_iter_bam(rng, n):
+    """records of every shape `_bam_iterator` distinguishes (seed C14-h: SEQ `*` and CIGAR `*`)"""
+    recs = []
+    for i in range(n):
+        shape = rng.choice(BAM_SHAPES)
+        L = rng.choice([1, 3, 4, 8, 12, rng.randrange(1, 60)])
+        r = {"name": f"r{i}" if rng.random() < 0.8 else f"r{rng.randrange(max(1, i))}", "shape": shape, "seq": None, "cigar": []}
+        if shape.startswith("seq"):
+            r["seq"] = "".join(rng.choice("ACGT") for _ in range(L))
+        if shape == "seq+cigar":
+            r["cigar"] = G.gen_cigar(rng, L)
+        elif shape == "noseq+cigar":
+            r["cigar"] = G.gen_cigar(rng, L)
+        elif shape == "noseq+hardclip":
+            r["cigar"] = [[5, rng.randrange(1, 9)]]
+        elif shape == "noseq+del-only":
+            r["cigar"] = [[2, rng.randrange(1, 9)]]
+        recs.append(r)
+    return {"kind": "iter-bam", "recs": recs}
+
+
+TITLE_SEPS = [" ", " ", "\t", "  ", " \t", "\x0b", "\x0c"]
+
+
+def gen_iter_fastq(rng, n):
+    """FASTQ as kseq accepts it: multi-line sequences / qualities, `+name` lines, titles with a comment behind a space, a
+    tab, several separators, a trailing separator"""
+    recs = []
+    for i in range(n):
+        name = G.wild_name(rng, i) if rng.random() < 0.3 else f"r{i}"
+        name = name.lstrip("@>+") or f"r{i}"
+        x = rng.random()
+        title = name
+        if x < 0.5:
+            title += rng.choice(TITLE_SEPS) + rng.choice(["c", "ccs np=7", "1:N:0:ACGT", "a\tb", "x  y"])
+        elif x < 0.6:
+            title += rng.choice([" ", "\t"])
+        L = rng.choice([1, 2, 5, 9, 30, rng.randrange(1, 80)])
+        seq = "".join(rng.choice("ACGTN") for _ in range(L))
+        k = rng.choice([1, 1, 2, 3]) if L >= 3 else 1
+        cuts = sorted(rng.sample(range(1, L), k - 1)) if k > 1 else []
+        lines = [seq[a:b] for a, b in zip([0] + cuts, cuts + [L])]
+        recs.append({"title": title, "seq_lines": lines, "plus": rng.choice(["", "", name]),
+                     "qual_split": rng.random() < 0.3 and len(lines) > 1})
+    return {"kind": "iter-fastq", "recs": recs, "gz": rng.random() < 0.3}
+
+
+def gen_tie_list(rng):
+    """4-column lists with few lines per block (ties are the rule), names repeated across phase sets and chromosomes"""
+    ploidy = rng.choice([2, 2, 3])
+    n_chrom, n_ps = rng.choice([1, 2, 3]), rng.choice([2, 3, 4])
+    pool = [f"n{i}" for i in range(rng.choice([3, 6, 12]))]
+    rows = []
+    for _ in range(rng.choice([2, 4, 6, 9, 14])):
+        h = rng.choice(["none"] + [f"H{i}" for i in range(1, ploidy + 1)] * 3)
+        rows.append([rng.choice(pool), h, "none" if h == "none" and rng.random() < 0.5 else str(rng.randrange(n_ps)),
+                     f"chr{rng.randrange(n_chrom)}"])
+    if rng.random() < 0.4:                      # no duplicate names
+        seen, uniq = set(), []
+        for r in rows:
+            if r[0] not in seen:
+                seen.add(r[0]); uniq.append(r)
+        rows = uniq
+    header = "#readname\thaplotype\tphaseset\tchromosome\n" if rng.random() < 0.5 else ""
+    return {"kind": "tie-list", "ploidy": ploidy, "discard": rng.random() < 0.25,
+            "text": header + "".join("\t".join(r) + "\n" for r in rows)}
+
+
+def deep_level(ctx, wd):
+    rng = ctx.rng
+    k = 1 if ctx.quick else 6
+    cases = [gen_iter_bam(rng, rng.choice([0, 3, 8, 15])) for _ in range(8 * k * ctx.scale)]
+    cases += [gen_iter_fastq(rng, rng.choice([0, 2, 6, 12])) for _ in range(8 * k * ctx.scale)]
+    cases += [gen_tie_list(rng) for _ in range(150 * k * ctx.scale)]
+    cases += [{"kind": "odd-path", "what": w, "fmt": f} for w in ("same-path-h1-h2", "output-is-input") for f in ("fastq", "bam")]
+    for c in cases:
+        deep_case(ctx, wd, c)
+
+
+def deep_case(ctx, wd, case):
+    kind = case["kind"]
+    d = os.path.join(wd, "deep"); os.makedirs(d, exist_ok=True)
+    try:
+        {"iter-bam": iter_bam_case, "iter-fastq": iter_fastq_case, "tie-list": tie_list_case, "odd-path": odd_path_case}[kind](ctx, d, case)
+    finally:
+        shutil.rmtree(d, ignore_errors=True)
+
+
+def iter_bam_case(ctx, d, case):
+    import pysam
+    import whatshap.cli.split as S
+    ctx.evaluated()
+    recs = case["recs"]
+    path = os.path.join(d, "it.bam")
+    header = {"HD": {"VN": "1.6", "SO": "unsorted"}, "SQ": [{"SN": "chr1", "LN": 100000}]}
+    with pysam.AlignmentFile(path, "wb", header=header) as out:
+        for i, r in enumerate(recs):
+            a = pysam.AlignedSegment(out.header)
+            a.query_name = r["name"]; a.query_sequence = r["seq"]
+            if r["cigar"] or r["shape"] == "neither-mapped-flag":
+                a.flag = 0; a.reference_id = 0; a.reference_start = 10 + 50 * i; a.mapping_quality = 60
+                if r["cigar"]:
+                    a.cigartuples = [tuple(x) for x in r["cigar"]]
+            else:
+                a.flag = 4
+            a.set_tag("ix", i)
+            out.write(a)
+    with pysam.AlignmentFile(path, "rb", check_sq=False) as f:
+        real = [[nm, L, rec.get_tag("ix")] for nm, L, rec in S._bam_iterator(f)]
+    for r in recs:
+        ctx.dist("iter_bam_shape", r["shape"])
+    # the property at the iterator: every record of the input is handed to the pass exactly once, in input order
+    if [x[2] for x in real] != list(range(len(recs))):
+        missing = [recs[i]["shape"] for i in range(len(recs)) if i not in {x[2] for x in real}]
+        ctx.fail(f"_bam_iterator yields records {[x[2] for x in real][:12]} of {len(recs)} input records (each must be yielded "
+                 f"once, in order); not yielded: {sorted(set(missing))} — such reads reach no output and no histogram row",
+                 case, key="iterator-drops-record")
+    # lengths by the harness' own measure
+    mine = [len(r["seq"]) if r["seq"] else sum(n for op, n in r["cigar"] if op in (0, 1, 4, 7, 8)) for r in recs]
+    if [x[1] for x in real] != mine and len(real) == len(recs):
+        ctx.fail(f"_bam_iterator lengths {[x[1] for x in real][:10]} != records' lengths {mine[:10]}", case, key="iterator-length")
+    model = ctx.model.ask("c14.iter", fmt="bam", recs=[[r["name"], len(r["seq"]) if r["seq"] else 0, r["cigar"]] for r in recs])
+    if model != real:
+        ctx.disagree("c14.iter.bam", case, real, model)
+    if len(real) >= 2:
+        ctx.nontrivial("iter-bam" + json.dumps(case, sort_keys=True))
+
+
+def iter_fastq_case(ctx, d, case):
+    import pysam
+    import whatshap.cli.split as S
+    ctx.evaluated()
+    recs = case["recs"]
+    text = ""
+    for r in recs:
+        seq = "".join(r["seq_lines"])
+        qual = "I" * len(seq)
+        qlines = ([qual[:len(r["seq_lines"][0])], qual[len(r["seq_lines"][0]):]] if r["qual_split"] else [qual])
+        text += "@" + r["title"] + "\n" + "\n".join(r["seq_lines"]) + "\n+" + r["plus"] + "\n" + "\n".join(qlines) + "\n"
+    path = os.path.join(d, "it.fastq" + (".gz" if case.get("gz") else ""))
+    with (gzip.open(path, "wb") if case.get("gz") else open(path, "wb")) as f:
+        f.write(text.encode())
+    with pysam.FastxFile(path) as f:
+        got = [(nm, L, rec) for nm, L, rec in S._fastq_string_iterator(f)]
+    real = [[nm, L, i] for i, (nm, L, _) in enumerate(got)]
+    want_names = [re.split(r"[ \t\n\x0b\x0c\r]", r["title"], maxsplit=1)[0] for r in recs]
+    want_lens = [sum(len(l) for l in r["seq_lines"]) for r in recs]
+    ctx.dist("iter_fastq_multiline", any(len(r["seq_lines"]) > 1 for r in recs))
+    if [x[0] for x in real] != want_names:
+        ctx.fail(f"_fastq_string_iterator yields {len(real)} reads named {[x[0] for x in real][:8]} for {len(recs)} input records "
+                 f"named {want_names[:8]} (each record once, in order)", case, key="iterator-drops-record")
+    elif [x[1] for x in real] != want_lens:
+        ctx.fail(f"_fastq_string_iterator lengths {[x[1] for x in real][:10]} != {want_lens[:10]}", case, key="iterator-length")
+    model = ctx.model.ask("c14.iter", fmt="fastq", recs=[[r["title"], r["seq_lines"]] for r in recs])
+    if model.get("items") != real:
+        ctx.disagree("c14.iter.fastq", case, real, model.get("items"))
+    # what is written for the record: `@` + title + 4-line layout; content (name, comment, bases, qualities) must be the input's
+    outs = [rec for _, _, rec in got]
+    exp = ["@" + t + "\n" + "".join(r["seq_lines"]) + "\n+\n" + "I" * sum(len(l) for l in r["seq_lines"]) + "\n"
+           for t, r in zip(model.get("titles", []), recs)]
+    if outs != exp and len(outs) == len(exp):
+        ctx.disagree("c14.iter.fastq.record", case, outs[:3], exp[:3])
+    for r, t in zip(recs, model.get("titles", [])):
+        if t != r["title"]:
+            ctx.dist("fastq_title_rewritten", "separator" if t.replace(" ", "") == re.sub(r"[ \t\x0b\x0c]", "", r["title"]) else "other")
+    if any(t != r["title"] for r, t in zip(recs, model.get("titles", []))) and not getattr(ctx, "_c14_title_obs", False):
+        ctx._c14_title_obs = True
+        ctx.observe("FASTQ records are re-rendered by pysam (`str(record)`): multi-line records become 4-line records, a `+name` "
+                    "line becomes `+`, and the ONE white-space character between read name and comment becomes a space (a tab or "
+                    "`\\x0b` separator is rewritten, a trailing separator without comment is dropped); name, comment, bases and "
+                    "qualities are unchanged (modelled: `fastqTitleOut`)")
+    if len(real) >= 2:
+        ctx.nontrivial("iter-fastq" + json.dumps(case, sort_keys=True))
+
+
+class _Grab:
+    """collects the INFO lines of whatshap.cli.split"""
+    def __enter__(self):
+        import logging
+        self.lines = []
+        outer = self
+
+        class H(logging.Handler):
+            def emit(self, record):
+                outer.lines.append(record.getMessage())
+        self.lg = logging.getLogger("whatshap.cli.split")
+        self.h = H(level=logging.INFO)
+        self.old = (self.lg.level, self.lg.propagate)
+        self.lg.addHandler(self.h); self.lg.setLevel(logging.INFO); self.lg.propagate = False
+        return self
+
+    def __exit__(self, *a):
+        self.lg.removeHandler(self.h); self.lg.setLevel(self.old[0]); self.lg.propagate = self.old[1]
+
+
+def tie_list_case(ctx, d, case):
+    """real `process_haplotag_list_file` with --only-largest-block: the blocks it logs as selected, the dict and the known set"""
+    ctx.evaluated()
+    lp = os.path.join(d, "tie.tsv")
+    open(lp, "w").write(case["text"])
+    with _Grab() as g:
+        real = real_list(lp, case["ploidy"], case["discard"], True)
+    blocks = []
+    for line in g.lines:
+        m = re.match(r"Chromosome: (.*) - Phaseset: (.*) - Tagged reads: (\d+)$", line)
+        if m:
+            blocks.append([m.group(1), m.group(2), int(m.group(3))])
+    model, mlist = ctx.model.ask_many([{"op": "c14.largest", "ploidy": case["ploidy"], "text": case["text"]},
+                                       {"op": "c14.list", "ploidy": case["ploidy"], "discard": case["discard"], "largest": True,
+                                        "text": case["text"]}])
+    if "err" in mlist:
+        mlist = {"err": mlist["err"].split(":")[0]}
+    ctx.dist("tie_list_outcome", real.get("err", "ok"))
+    if real != mlist:
+        ctx.disagree("c14.list", case, real, mlist)
+    if "err" in model:
+        return
+    # the harness' own reading: sizes = tagged lines per (chromosome, phase set); per chromosome the first block in list
+    # order among those of maximal size
+    rows = [l.split("\t") for l in case["text"].split("\n") if l and not l.startswith("#")]
+    tagged = [r for r in rows if r[1] != "none"]
+    size = collections.Counter((r[3], r[2]) for r in tagged)
+    first = {}
+    for i, r in enumerate(tagged):
+        first.setdefault((r[3], r[2]), i)
+    mine = []
+    for c in dict.fromkeys(r[3] for r in tagged):
+        best = max(v for (cc, _), v in size.items() if cc == c)
+        cands = [b for b in size if b[0] == c and size[b] == best]
+        ctx.dist("largest_tie_width", min(len(cands), 4))
+        b = min(cands, key=lambda b: first[b])
+        mine.append([b[0], b[1], size[b], first[b]])
+    if model["blocks"] != mine:
+        ctx.disagree("c14.largest.oracle", case, mine, model["blocks"])
+    if [b[:2] for b in model["blocks"]] != model["yard"]:
+        ctx.disagree("c14.largest.yard", case, model["yard"], model["blocks"])
+    if "err" not in real or real["err"] == "AssertionError":
+        # the blocks are logged before the duplicate assert? no: the assert comes first — only compare accepted lists
+        pass
+    if "err" not in real:
+        if blocks != [b[:3] for b in model["blocks"]]:
+            ctx.disagree("c14.largest", case, blocks, model["blocks"])
+        for c, ps, nlines in blocks:
+            if nlines != max(v for (cc, _), v in size.items() if cc == c):
+                ctx.fail(f"--only-largest-block selects phase set {ps} of {c} with {nlines} tagged reads, the largest has "
+                         f"{max(v for (cc, _), v in size.items() if cc == c)}", case, key="largest-block-not-largest")
+        names = {}
+        for r in tagged:
+            names.setdefault(r[0], set()).add((r[3], r[2]))
+        ctx.dist("tie_list_dup_names", "across-blocks" if any(len(v) > 1 for v in names.values()) else
+                 "dups" if len(tagged) > len(names) else "unique")
+        if len(blocks) >= 1 and len(tagged) >= 2:
+            ctx.nontrivial("tie-list" + case["text"] + str(case["ploidy"]))
+
+
+def odd_path_case(ctx, d, case):
+    """paths the property does not speak about: observations only"""
+    import pysam
+    what, fmt = case["what"], case["fmt"]
+    reads = [{"name": f"r{i}", "seq": "ACGT" * (i + 1), "comment": None, "mapped": False, "cigar_len": None} for i in range(6)]
+    c = {"fmt": fmt, "reads": reads, "header": None, "rows": [[f"r{i}", "H1" if i % 2 else "H2"] for i in range(5)],
+         "list_gz": False}
+    rp, lp = G.write_inputs(c, d)
+    size0 = os.path.getsize(rp)
+    if what == "same-path-h1-h2":
+        out = os.path.join(d, "both." + fmt)
+        args = ["split", "--output-h1", out, "--output-h2", out, rp, lp]
+    else:
+        out = rp
+        args = ["split", "--output-untagged", rp, "--output-h1", os.path.join(d, "h1." + fmt), rp, lp]
+    rc, _, err, _ = sim.whatshap(args, ctx.overlay)
+    recs = G.read_records(out, "bam" if fmt == "bam" else "fastq") if os.path.exists(out) else None
+    names = [t.split("\n")[0].split("\t")[0].lstrip("@") for t, _ in recs] if recs else recs
+    ctx.dist("odd_path", f"{what}:{fmt}:rc={rc}")
+    if what == "same-path-h1-h2":
+        ctx.observe(f"odd path ({fmt}): --output-h1 and --output-h2 given the SAME path: exit status {rc}; both writers open and "
+                    f"truncate the file, the file afterwards holds {names} (H1 reads are r1 r3, H2 reads r0 r2 r4): the two "
+                    "streams overwrite each other — no error is raised")
+    else:
+        ctx.observe(f"odd path ({fmt}): --output-untagged = the input file: exit status {rc}"
+                    f"{' (' + err_class(err) + ')' if rc else ''}; the input ({size0} bytes before) is opened for reading, then "
+                    f"truncated by the writer: afterwards {os.path.getsize(rp) if os.path.exists(rp) else 'missing'} bytes, records {names} — "
+                    "the input is destroyed, no error is raised by split itself")
